@@ -322,6 +322,27 @@ pub fn emit_data_module(b: &DataBatch, modname: &str, json_file: &str) -> String
     for r in &b.roots {
         writeln!(out, "            hcore::ops::mk::<{}>(),", b.uni.rust_ty(&r.ty, "")).unwrap();
     }
+    out.push_str("        ]\n    }\n");
+    // introspection registry (None for types without an Introspect impl)
+    out.push_str("    pub fn intro_roots() -> Vec<Option<Box<dyn hcore::intro::IntroOps>>> {\n        vec![\n");
+    for r in &b.roots {
+        if introspectable(&b.uni, &r.ty) {
+            writeln!(out, "            hcore::intro::mk::<{}>(),", b.uni.rust_ty(&r.ty, "")).unwrap();
+        } else {
+            out.push_str("            hcore::intro::none(),\n");
+        }
+    }
     out.push_str("        ]\n    }\n}\n");
     out
+}
+
+/// Types for which the library provides `Introspect` (found by compiling: Cell, io::Error,
+/// Range and a few leaves have no impl).
+pub fn introspectable(u: &Universe, ty: &Ty) -> bool {
+    !u.any_ty(ty, &|t| {
+        matches!(
+            t,
+            Ty::Wrap(WrapKind::Cell, _) | Ty::Leaf(Leaf::IoError)
+        )
+    })
 }
